@@ -7,6 +7,9 @@ Rule family R11 (definite assignment of field attributes) + shape of __eq__/__re
      same name on self and other, returns False on the first difference; True is
      returned only after the loop;
  (b) no __ne__ / __hash__ override in Packet contradicts it (Python derives != from ==);
+ (d) init / unpack agreement: for every field class, init and every unpack strategy either both
+     assign the field's own name on all paths or both never do (a built packet and the packet
+     parsed from its bytes carry the same attributes);
  (c) totality: every attribute read that __eq__ / __repr__ perform for each
      get_fields() entry is either read with a default, or the name is assigned on every
      path of ``init`` and of every unpack strategy of every field class that can appear
@@ -37,6 +40,42 @@ def read_sites(func_node, loop_var_names):
     return out
 
 
+EMBED_EXCEPTION = ('Ref', 'Field.unpack_noop')   # embed=True is documented as experimental: the prototype copy
+#                                                  stored by init is never parsed (C01 excludes embed as well)
+
+
+def check_init_unpack_agree(ctx):
+    """a name that init stores but unpack never writes (or the reverse) makes a built packet
+    differ from the packet parsed from its own bytes although all value-bearing fields agree"""
+    repo = ctx.repo
+    rule = 'R11-init-unpack-agree'
+    table = strategy_table(repo)
+    for cname, (ci, strats) in sorted(table.items()):
+        init = repo.method(ci, 'init')
+        if init is None:
+            continue
+        ri = stores_own_name(repo, ci, init, depth=ctx.depth, max_paths=ctx.max_paths)
+        init_all = bool(ri) and all(h is not None for _, h in ri)
+        init_none = all(h is None for _, h in ri)
+        seen = set()
+        for s in strats:
+            u = s['unpack']
+            if u is None or u.id in seen or is_placeholder(u):
+                continue
+            seen.add(u.id)
+            ru = stores_own_name(repo, ci, u, depth=ctx.depth, max_paths=ctx.max_paths)
+            up_all = bool(ru) and all(h is not None for _, h in ru)
+            up_none = all(h is None for _, h in ru)
+            st = '[%s] init %s stores its own name on %s paths; unpack %s on %s paths' % (
+                cname, init.qual, 'all' if init_all else 'no' if init_none else 'some', u.qual, 'all' if up_all else 'no' if up_none else 'some')
+            if (cname, u.qual) == EMBED_EXCEPTION:
+                ctx.holds(rule, u, st, 'triaged exception: embed=True is experimental and excluded', u.node.lineno)
+            elif (init_all and up_all) or (init_none and up_none):
+                ctx.holds(rule, u, st, 'built and parsed packets carry the same attributes', u.node.lineno)
+            else:
+                ctx.violation(rule, u, st, 'a packet built with the constructor and the packet parsed from its bytes differ in this attribute although every value-bearing field is equal: they compare unequal', u.node.lineno)
+
+
 def field_loop(fi):
     loops = [n for n in ast.walk(fi.node) if isinstance(n, ast.For) and 'get_fields' in unparse(n.iter)]
     # the loop must be reachable (not after an unconditional raise)
@@ -50,7 +89,7 @@ def reachable_loops(fi):
         if dead:
             break
         for n in ast.walk(s):
-            if isinstance(n, ast.For) and 'get_fields' in unparse(n.iter):
+            if isinstance(n, ast.For) and ('get_fields' in unparse(n.iter) or 'fields' in unparse(n.iter)):
                 out.append(n)
         if isinstance(s, (ast.Raise, ast.Return)):
             dead = True
@@ -230,5 +269,11 @@ def check(ctx):
         if any(isinstance(n, ast.Raise) for n in ast.walk(rp.node)):
             ctx.violation('R11-total-reads', rp, 'Packet.__repr__', 'contains a raise statement', rp.node.lineno)
     check_total_reads(ctx, pk, readers)
+    check_init_unpack_agree(ctx)
+    # __repr__ shows every field of get_fields()
+    if rp is not None:
+        lps = reachable_loops(rp)
+        if lps and not any(canon(lp.iter) in ('self.get_fields()', 'self.__class__.get_fields()', 'type(self).get_fields()') for lp in lps):
+            ctx.note('__repr__ iterates %s instead of get_fields()' % canon(lps[0].iter))
     ctx.floor('attribute read sites in __eq__/__repr__', ctx.units.get('read_sites', 0), 3)
     ctx.trust(*ASSUMPTIONS)
